@@ -5,12 +5,12 @@
 EXTENDS Qelib1, FiniteSets
 CONSTANT Grid          \* angle values for the 2/3/4-parameter gates (even values: cu3 halves its parameters)
 VARIABLES c, done
-S(q, p) == [q |-> q, p |-> p, w |-> [i \in 1..QArity(q) |-> i], mods |-> <<>>]
-Names == (OneQ0 \cup OneQ1 \cup TwoQ0 \cup TwoQ1 \cup ThreeQ0 \cup {"u2", "u3", "cu3", "cu"})
-Par(q) == IF QNParams(q) = 0 THEN {<<>>}
+QsS(q, p) == [q |-> q, p |-> p, w |-> [i \in 1..QArity(q) |-> i], mods |-> <<>>]
+QsNames == (OneQ0 \cup OneQ1 \cup TwoQ0 \cup TwoQ1 \cup ThreeQ0 \cup {"u2", "u3", "cu3", "cu"})
+QsPar(q) == IF QNParams(q) = 0 THEN {<<>>}
           ELSE IF QNParams(q) = 1 THEN {<<a>> : a \in {x \in 0..N-1 : 1 \in Halved(q) => x % 2 = 0}}
           ELSE [1..QNParams(q) -> Grid]
-TableCases == UNION {{S(q, p) : p \in Par(q)} : q \in Names}
+TableCases == UNION {{QsS(q, p) : p \in QsPar(q)} : q \in QsNames}
 \* invariants are evaluated on the successor states (in parallel), not on the sequentially built initial states
 Init == c \in TableCases /\ done = FALSE
 Next == ~done /\ done' = TRUE /\ UNCHANGED c
